@@ -59,7 +59,8 @@ def cases(shard, tier):
         if dt in ("int64", "uint8"):
             # one object asked again and again (contiguous, and as a selection nothing has read yet)
             yield [lens, dt, 0, "seq_contig"]
-            yield [lens, dt, 1, "seq_view"]
+            for vk in ("", "_perm", "_colrev", "_colstep"):
+                yield [lens, dt, 1, "seq_view" + vk]
 
 
 def _op(acc, op, ra, dt, lens):
@@ -181,11 +182,9 @@ def _check_seq(acc, case, flat, rows):
     from npstructures import RaggedArray
     lens, dt, k, op = case
     acc.feature("same_object_sequence")
-    if op == "seq_view":
-        back = [np.array([7], dtype=dt)] + rows[::-1]
-        big = RaggedArray(np.concatenate(back), [len(r) for r in back])
-        int(big.size)          # the parent has been asked its size (memoised) before the selection is taken
-        ra = big[:0:-1]
+    if op.startswith("seq_view"):
+        from mc.checks.c09 import _pending_view
+        ra = _pending_view(op[len("seq_view"):], [r.tolist() for r in rows], dt)
     else:
         ra = RaggedArray(flat.copy(), list(lens))
     if any(l >= 2 for l in lens):
